@@ -363,6 +363,56 @@ def networks_sharing_nodes(M, rec, rng, n_pairs):
     W.shared_object_networks(M, rec, rng, n_pairs, after_step=after_step)
 
 
+def ramp_attached_later(M, rec, rng, g):
+    """"What if we open an on-ramp here": a network is stepped, an on-ramp is attached to an interior node through the API
+    (nothing else is built afterwards), and it is stepped again - like the network that had the ramp from the start."""
+    import copy
+
+    NE, CE = drive.engines(M)
+    desc = copy.deepcopy(g.network(rng.choice(("chain", "chain", "bifurcation", "random", "merge")))[1])
+    ins, outs, org, dst = R.topology(desc)
+    cand = [n_ for n_ in desc["nodes"] if n_ not in org and len(ins[n_]) >= 1 and len(outs[n_]) == 1]
+    if not cand:
+        return
+    n_ = rng.choice(cand)
+    okind = rng.choice(("ramp", "simple"))
+    x = {"id": "Olater", "name": "Olater", "node": n_, "kind": okind, "C": round(rng.uniform(1200.0, 4500.0), 1),
+         "eq": {"ramp": rng.choice(("in", "out")), "simple": "limited"}[okind]}
+    after = copy.deepcopy(desc)
+    after["origins"].append(x)
+    pars = g.pars()
+    kw = drive.step_pars(pars)
+    _, v0 = g.values(desc, "interior", allow_inf=False)
+    _, vals = g.values(after, "interior", allow_inf=False)
+    vals[x["id"]].update(d=rng.uniform(800.0, 2500.0), w=rng.uniform(0.0, 30.0))
+    if "r" in vals[x["id"]]:
+        vals[x["id"]]["r"] = rng.uniform(0.5, 1.0)
+    try:
+        b = D.build(M, desc)
+        how = rng.choice(("step", "element loop", "what-if"))
+        if how == "step":
+            b.net.step(init_conditions=drive.np_init(b, v0, "vec1"), engine=NE(), **kw)
+        elif how == "element loop":
+            drive.do_step(b.net, rng.choice(drive.VIAS[1:]), rng=rng, init_conditions=drive.np_init(b, v0, "vec1"), engine=NE(), **kw)
+        else:
+            b.net.step(init_conditions=drive.np_init(b, v0, "vec1"), engine=NE(), **kw)
+            for l_ in b.links.values():
+                l_.step_dynamics(b.net, engine=NE(), **kw)
+        _n, _l, origins, _d = D.make_objects(M, {"nodes": [], "links": [], "origins": [x], "dests": []})
+        b.origins[x["id"]] = origins[x["id"]]
+        b.net.add_origin(origins[x["id"]], b.nodes[n_])
+        b.desc = after
+        b.net.step(init_conditions=drive.np_init(b, vals, "vec1"), engine=NE(), **kw)
+        later = drive.read_next(b)
+        f = D.build(M, after, D.random_ops(after, rng))
+        f.net.step(init_conditions=drive.np_init(f, vals, "vec1"), engine=NE(), **kw)
+        rec.count("relation_ramp_attached_later")
+        same(rec, "an on-ramp attached to the stepped network vs the network built with it", "numpy", after, drive.read_next(f), later,
+             {"desc": after, "vals": vals, "pars": pars, "earlier": how})
+    except Exception as e:
+        rec.violation(f"{PROP}:ramp attached later:numpy: the extended network cannot be stepped ({type(e).__name__})", {"exception": repr(e)[:300]})
+
+
 def state_dependent_turn_rates(M, rec, rng, g):
     """A user link kind whose turn rate is a property of its current state (route choice reacting to traffic):
     the share of the node's inflow a leaving link receives is its CURRENT turn rate over the sum of the current
@@ -423,6 +473,8 @@ def run(M, rec, tier, seed, k, n):
             moved_link(M, rec, rng, g)
         if it % 4 == 3:
             state_dependent_turn_rates(M, rec, rng, g)
+        if it % 4 == 2:
+            ramp_attached_later(M, rec, rng, g)
     networks_sharing_nodes(M, rec, rng, 40 if tier == "quick" else 400)
 
 
